@@ -5,6 +5,9 @@ import CV.Proofs.NodeTwoK
 import CV.Proofs.NodeTwoToy
 import CV.Proofs.NodeTwoFwToy
 import CV.Proofs.NodeTwoGate
+import CV.Proofs.NodeSym
+import CV.Proofs.NodeSymOne
+import CV.Proofs.NodeSymOne2
 /-
 C19 — Node: remote events run once and return their result; peers cannot harm the loop.
 
@@ -516,6 +519,200 @@ example (sched : List (Nat × n2_Step)) :
       SafeFw n2f_toyEnv n2f_toyCalls w ∧ (n2_Quiescent w → CompletedFw n2f_toyEnv n2f_toyCalls w) ∧
       (∀ x ∈ w.fired, n2f_toyEnv.recvOkB x.1 = true) :=
   once_and_back_k_firewall_partial (fun _ => n2f_toyEnv) _ sched 1 n2f_toyCalls rfl n2f_toy_hyp
+
+
+/-! ## the symmetric composition: both ends originate calls on one connection; the send firewall
+
+`ns_World`, `ns_step`, `ns_run` (CV/Model/NodeTwo.lean, executed by `cvdriver node2` ops `sstep …` against real endpoints
+on every run of the check): end A and end B are the same protocol, each with its own id counter, its own table of
+waiting calls, its own firewalls and its own handlers; each direction has ONE byte stream that carries the calls of its
+writer and the writer's answers to the peer's calls, read by the peer in arbitrary cuts.  A schedule is any list of
+`(end, send | deliver n | answer id | poll id)`.
+
+All theorems of this section are hypothesis-free: no assumption on the JSON oracle, the bytes, the peer, the handlers.
+
+NOT proved (validated only: the correspondence runs of harness/c19.py compare `ns_step` with real endpoints and judge the
+statement on the implementation's behaviour, signatures `symmetric-…`):
+
+  symmetric_once_and_back_partial :  under the hypotheses of `n2f_Hyp` for both directions (handlers of accepted calls
+    return), for every schedule: every call of A accepted by both firewalls is dispatched on B exactly once, in order, and
+    A's generator for call k yields exactly the value B's handler returned for A's call k - and the same with A and B
+    exchanged, both at once.
+
+What is proved here instead are the parts of it that do not depend on the codec: gates, id separation, at-most-once
+resumption, and everything about the send firewall. -/
+
+/-- **a call rejected by the send firewall is never transmitted**: the step in which end A (resp. B) is handed a call its
+    send firewall rejects changes nothing in the world except that the call is taken from `todo` and recorded in
+    `blocked`: no byte is written on either stream, no id is consumed, nothing is registered in the table of waiting
+    calls (so there is no generator left waiting: in the code the generator yields one empty `Value` and ends), nothing
+    changes on the peer.  Third part: the same for the caller of the two-party world `n2_step`. -/
+theorem send_rejected_never_transmitted (E : ns_Env) (w : ns_World) (e : Ev) (rest : List Ev) :
+    (w.a.todo = e :: rest → E.base.sendOkA e = false →
+      ns_step E w (false, .send) = { w with a := { w.a with todo := rest, blocked := w.a.blocked ++ [e] } }) ∧
+    (w.b.todo = e :: rest → E.base.sendOkB e = false →
+      ns_step E w (true, .send) = { w with b := { w.b with todo := rest, blocked := w.b.blocked ++ [e] } }) ∧
+    (∀ w2 : n2_World, w2.todo = e :: rest → E.base.sendOkA e = false →
+      n2_step E.base w2 .send = { w2 with todo := rest }) := by
+  refine ⟨?_, ?_, ?_⟩
+  · intro ht hb
+    simp only [ns_step]
+    rw [ns_act_send_blocked E.base.cA _ _ _ w.a w.b e rest ht hb]
+    simp
+  · intro ht hb
+    simp only [ns_step]
+    rw [ns_act_send_blocked E.base.cB _ _ _ w.b w.a e rest ht hb]
+    simp
+  · intro w2 ht hb
+    simp only [n2_step, ht]
+    rw [ns_send_blocked_proto E.base.cA w2.a e hb]
+    simp [n2_wire]
+
+/-- **blocked calls consume no id** (whole runs): after every schedule, the calls an end has handed to `send` so far split
+    into those its send firewall rejected - exactly `blocked`, in order - and the accepted ones, and the id counter of
+    that end equals the number of accepted ones: ids are allocated to transmitted calls only, independently per end -/
+theorem send_rejected_consumes_no_id (E : ns_Env) (callsA callsB : List Ev) (sched : List (Bool × ns_Op)) :
+    let w := ns_run E (ns_init callsA callsB) sched
+    (∃ done, callsA = done ++ w.a.todo ∧ w.a.blocked = done.filter (fun e => !E.base.sendOkA e) ∧
+        w.a.p.nid = (done.filter E.base.sendOkA).length) ∧
+    (∃ done, callsB = done ++ w.b.todo ∧ w.b.blocked = done.filter (fun e => !E.base.sendOkB e) ∧
+        w.b.p.nid = (done.filter E.base.sendOkB).length) :=
+  ns_run_count E callsA callsB sched (ns_init callsA callsB) (ns_count_init _ _) (ns_count_init _ _)
+
+/-- **ids of the two ends do not collide**: (1) a result packet - whatever its id, whatever state the receiving protocol
+    is in - is never taken for a call: it makes the protocol neither dispatch nor write; (2) a call packet never resolves
+    a waiting call and leaves the protocol untouched - so A's call k is never taken for the answer to B's call k;
+    (3) at every moment of every schedule every answer an end has accepted carries an id that this end's OWN counter
+    has issued (`< nid`: the id of a call it made itself - the result of A's call k travels B→A and can only be matched
+    against A's table); (4) a step of one end changes nothing on the other end but the bytes in flight -/
+theorem symmetric_ids_do_not_collide :
+    (∀ (c : Cfg) (s : Proto) (excl : List String) (id er v : J) (attrs : List (String × J)),
+        ∀ x ∈ (processJ c s (dumpValue excl id er v attrs)).2, ∃ n v' er', x = Eff.resolve n v' er') ∧
+    (∀ (c : Cfg) (s : Proto) (excl : List String) (e : Ev) (id : J),
+        (processJ c s (dumpEvent excl e id)).1 = s ∧ ∀ n v er, Eff.resolve n v er ∉ (processJ c s (dumpEvent excl e id)).2) ∧
+    (∀ (E : ns_Env) (callsA callsB : List Ev) (sched : List (Bool × ns_Op)),
+        let w := ns_run E (ns_init callsA callsB) sched
+        (∀ x ∈ w.a.resolved, x.1 < w.a.p.nid) ∧ (∀ x ∈ w.b.resolved, x.1 < w.b.p.nid)) ∧
+    (∀ (E : ns_Env) (w : ns_World) (op : ns_Op),
+        (∃ o, (ns_step E w (false, op)).b = { w.b with out := o }) ∧
+        (∃ o, (ns_step E w (true, op)).a = { w.a with out := o })) := by
+  refine ⟨?_, ?_, ?_, ?_⟩
+  · intro c s excl id er v attrs
+    exact ns_value_packet_effects c s _ (ns_isValue_dumpValue excl id er v attrs)
+  · intro c s excl e id
+    exact ns_call_packet_effects c s _ (ns_isValue_dumpEvent excl e id)
+  · intro E callsA callsB sched
+    have h := ns_run_ok E sched _ (ns_ok_init E callsA callsB)
+    exact ⟨h.a.res_lt, h.b.res_lt⟩
+  · intro E w op
+    exact ⟨ns_act_peer E.base.cA E.base.parse E.base.dumps E.behA w.a w.b op,
+      ns_act_peer E.base.cB E.base.parse E.base.dumps E.base.beh w.b w.a op⟩
+
+/-- **both receive firewalls are gates**: in the symmetric world, at every moment of every schedule, every event that was
+    dispatched on an end had been accepted by that end's receive firewall -/
+theorem symmetric_rejected_never_executed (E : ns_Env) (callsA callsB : List Ev) (sched : List (Bool × ns_Op)) :
+    let w := ns_run E (ns_init callsA callsB) sched
+    (∀ x ∈ w.a.fired, E.base.recvOkA x.1 = true) ∧ (∀ x ∈ w.b.fired, E.base.recvOkB x.1 = true) := by
+  have h := ns_run_ok E sched _ (ns_ok_init E callsA callsB)
+  exact ⟨h.gateA, h.gateB⟩
+
+/-- **a waiting caller is resumed at most once, and only the caller of a call that was made**: on both ends, at every
+    moment of every schedule, the ids with which generators were resumed are pairwise different, each was issued by this
+    end's own counter, and none of them is still registered (no second answer can reach it: `answer_isolated`) -/
+theorem symmetric_resumed_at_most_once (E : ns_Env) (callsA callsB : List Ev) (sched : List (Bool × ns_Op)) :
+    let w := ns_run E (ns_init callsA callsB) sched
+    ((w.a.yielded.map (·.1)).Nodup ∧ ∀ y ∈ w.a.yielded, y.1 < w.a.p.nid ∧ y.1 ∉ w.a.p.pending.map (·.id)) ∧
+    ((w.b.yielded.map (·.1)).Nodup ∧ ∀ y ∈ w.b.yielded, y.1 < w.b.p.nid ∧ y.1 ∉ w.b.p.pending.map (·.id)) := by
+  have h := ns_run_ok E sched _ (ns_ok_init E callsA callsB)
+  exact ⟨⟨h.a.yl_nodup, fun y hy => ⟨h.a.yl_lt y hy, h.a.yl_notpend y hy⟩⟩,
+    ⟨h.b.yl_nodup, fun y hy => ⟨h.b.yl_lt y hy, h.b.yl_notpend y hy⟩⟩⟩
+
+/-! non-vacuity: the toy world with a send firewall on A that rejects `pong`; both ends make the toy calls -/
+
+def symToyEnv : ns_Env :=
+  { base := { n2_toyEnv with sendOkA := fun e => e.name != "pong" }, behA := fun k _ => some (.str (toString k), []) }
+
+/-- the hypotheses of `send_rejected_never_transmitted` occur: after A's first send the next call is `pong`, rejected -/
+example : ∃ e rest, (ns_step symToyEnv (ns_init n2_toyCalls n2_toyCalls) (false, .send)).a.todo = e :: rest ∧
+    symToyEnv.base.sendOkA e = false := ⟨_, _, rfl, by decide⟩
+
+/-- a run in which both ends have calls in flight with the same id 0, A's `pong` is blocked, answers cross -/
+def demoSchedSym : List (Bool × ns_Op) :=
+  [(false, .send), (true, .send), (false, .send), (true, .send), (true, .deliver 3), (false, .deliver 100),
+   (true, .deliver 100), (false, .answer 0), (true, .answer 0), (false, .answer 1), (true, .deliver 100),
+   (false, .deliver 2), (false, .deliver 100), (false, .poll 0), (true, .poll 0), (true, .poll 1)]
+
+example : (ns_run symToyEnv (ns_init n2_toyCalls n2_toyCalls) demoSchedSym).a.blocked.length = 1 ∧
+    (ns_run symToyEnv (ns_init n2_toyCalls n2_toyCalls) demoSchedSym).a.p.nid = 1 ∧
+    (ns_run symToyEnv (ns_init n2_toyCalls n2_toyCalls) demoSchedSym).b.p.nid = 2 := by
+  refine ⟨?_, ?_, ?_⟩ <;> decide +kernel
+
+
+/-- **the symmetric world extends the two-party world conservatively** (the part of `symmetric_once_and_back` that is
+    proved): when end B originates no calls, then for every schedule of the symmetric world - including B's idle sends
+    and polls and A's handler-return steps - no event ever reaches A's application (B writes result packets only), and
+    the symmetric run projected on (A caller, B callee) IS the two-party run of the corresponding steps; hence all of
+    `SafeFw` / `CompletedFw` hold of it: exactly the calls accepted by B's firewall are dispatched on B, once, in order,
+    and every caller on A is resumed with its own value.
+    `_partial`: (1) one originating end only - the statement with both ends calling at once is not proved (see the
+    section header; the mirrored statement, B calling and A idle, is `symmetric_once_and_back_oneway_mirrored_partial`); (2) "handlers of accepted calls return" (`n2f_Hyp.returns`, the known finding, witness
+    `once_and_back_witness`); (3) A's send firewall accepts the calls (part of `n2f_Hyp`; rejected ones are covered by
+    `send_rejected_never_transmitted`). -/
+theorem symmetric_once_and_back_oneway_partial (E : ns_Env) (calls : List Ev) (H : n2f_Hyp E.base calls)
+    (sched : List (Bool × ns_Op)) :
+    let w := ns_proj2 (ns_run E (ns_init calls []) sched)
+    (ns_run E (ns_init calls []) sched).a.fired = [] ∧
+      w = n2_run E.base (n2_init calls) (sched.filterMap ns_toN2) ∧
+      SafeFw E.base calls w ∧ (n2_Quiescent w → CompletedFw E.base calls w) := by
+  intro w
+  obtain ⟨hf, e⟩ := ns_oneway_reach E calls H sched _ (ns_one_init calls) rfl (n2f_reach_init E.base calls)
+  have e' : w = n2_run E.base (n2_init calls) (sched.filterMap ns_toN2) := e
+  refine ⟨hf, e', ?_, ?_⟩
+  · rw [e']; exact once_and_back_firewall_safety_partial E.base calls H _
+  · rw [e']; exact fun q => once_and_back_firewall_partial E.base calls H _ q
+
+/-- non-vacuity: the firewall toy world (B rejects `pong`); B sends (nothing), polls, A's idle handler step in between -/
+def symOneEnv : ns_Env := { base := n2f_toyEnv, behA := fun _ _ => none }
+
+def demoSchedOne : List (Bool × ns_Op) :=
+  [(false, .send), (true, .send), (false, .send), (false, .send), (true, .deliver 7), (false, .answer 0),
+   (true, .deliver 100), (true, .answer 2), (false, .deliver 5), (true, .poll 0), (true, .answer 0),
+   (false, .deliver 100), (false, .poll 1), (false, .poll 0), (false, .poll 2)]
+
+example : n2f_Hyp symOneEnv.base n2f_toyCalls := n2f_toy_hyp
+
+example : SafeFw n2f_toyEnv n2f_toyCalls (ns_proj2 (ns_run symOneEnv (ns_init n2f_toyCalls []) demoSchedOne)) :=
+  (symmetric_once_and_back_oneway_partial symOneEnv n2f_toyCalls n2f_toy_hyp demoSchedOne).2.2.1
+
+/-- the demo schedule really gets somewhere: all three calls made, two dispatched on B (`pong` is rejected) -/
+example : (ns_run symOneEnv (ns_init n2f_toyCalls []) demoSchedOne).b.fired.length = 2 ∧
+    (ns_run symOneEnv (ns_init n2f_toyCalls []) demoSchedOne).a.yielded.length = 3 := by
+  refine ⟨?_, ?_⟩ <;> decide +kernel
+
+/-- **the two ends are interchangeable**: exchanging the roles of A and B in the environment, the world and the schedule
+    commutes with running - every theorem about end A is a theorem about end B -/
+theorem symmetric_ends_interchangeable (E : ns_Env) (w : ns_World) (sched : List (Bool × ns_Op)) :
+    ns_run (ns_swapE E) (ns_swapW w) (sched.map ns_swapS) = ns_swapW (ns_run E w sched) :=
+  ns_run_swap E sched w
+
+/-- … in particular **B calling, A idle** (B = the server-side protocol originates the calls, A executes them): the run
+    seen from the other end is a two-party run with B as caller; same `_partial` clauses as above, the hypotheses being
+    those of the two-party theorems for the exchanged environment -/
+theorem symmetric_once_and_back_oneway_mirrored_partial (E : ns_Env) (calls : List Ev)
+    (H : n2f_Hyp (ns_swapE E).base calls) (sched : List (Bool × ns_Op)) :
+    let w := ns_proj2 (ns_swapW (ns_run E (ns_init [] calls) sched))
+    (ns_run E (ns_init [] calls) sched).b.fired = [] ∧
+      w = n2_run (ns_swapE E).base (n2_init calls) ((sched.map ns_swapS).filterMap ns_toN2) ∧
+      SafeFw (ns_swapE E).base calls w ∧ (n2_Quiescent w → CompletedFw (ns_swapE E).base calls w) := by
+  intro w
+  have hs := ns_run_swap E sched (ns_init [] calls)
+  have h := symmetric_once_and_back_oneway_partial (ns_swapE E) calls H (sched.map ns_swapS)
+  have hi : ns_swapW (ns_init [] calls) = ns_init calls [] := rfl
+  rw [hi] at hs
+  simp only [hs] at h
+  exact h
+
+example : n2f_Hyp (ns_swapE (ns_swapE symOneEnv)).base n2f_toyCalls := n2f_toy_hyp
 
 
 end CV.C19
